@@ -112,6 +112,8 @@ func typeOfExpr(x gen.TExpr) string {
 		return "logic(" + t.Op + ")"
 	case gen.TGroup:
 		return "group:" + typeOfExpr(t.X)
+	case gen.TNeg:
+		return "neg:" + t.X.T.String() + "-var"
 	}
 	return "?"
 }
@@ -355,7 +357,11 @@ func runTrace(oc *fw.Outcome, cc ccase) {
 						b = ref.Logs[k]
 					}
 					if a != b {
-						oc.Violate("log:value", fmt.Sprintf("log line %d is %q in the interpreter but %q by the reference semantics", k, a, b), detail(nil))
+						key := "log:value"
+						if ref.ZeroLenMatch > 0 {
+							key = "regex:zero-length-match/log" // evaluated inside a helper subroutine: only its log lines show it
+						}
+						oc.Violate(key, fmt.Sprintf("log line %d is %q in the interpreter but %q by the reference semantics", k, a, b), detail(nil))
 						break
 					}
 				}
